@@ -438,7 +438,7 @@ theorem canon_no_new_delimiter :
   · rcases hd with rfl | rfl | rfl <;>
       exact not_mem_safelyUnquote _ ⟨by decide, by decide⟩ (by decide) (by decide) s hs
 
-/-- **the userinfo of the canonical form passes the NFKC check of `urlsplit`** (FX-C01-NFKCUSERINFO):
+/-- **the userinfo of the canonical form passes the NFKC check of `urlsplit`** (FX-C01-194b1c7):
 no character of the canonical user name / password, in either mode, is one the running `urlsplit`
 refuses in a netloc because its compatibility form holds one of `/ ? # @ :` (the regenerated table
 `Gen.nfkcDelimCodes`; `_checknetloc` itself is outside the parser model `Py.parseUrl` — with this
@@ -460,7 +460,7 @@ theorem canon_userinfo_no_nfkc_delim (puny : Str → Str) (quoted sf : Bool) (p 
         simp [nfkcDelimChar, hm] at this
   exact ⟨key _, key _⟩
 
-/-- the witness of FX-C01-NFKCUSERINFO (`http://%EF%BC%A0x@a.com/p`): U+FF20 stays escaped in the
+/-- the witness of FX-C01-194b1c7 (`http://%EF%BC%A0x@a.com/p`): U+FF20 stays escaped in the
 user name, an ordinary non-ASCII character is decoded as before -/
 example :
     unquoteAuthItem "%EF%BC%A0x".toList = "%EF%BC%A0x".toList ∧
